@@ -24,7 +24,7 @@ def main():
     sh(f"git -C /repo worktree remove --force {wt}")
     r = sh(f"git -C /repo worktree add --detach {wt} HEAD")
     try:
-        sh(f"cp /tmp/wt-clean/src/basilisp/_lang.abi3.so {wt}/src/basilisp/_lang.abi3.so")
+        sh(f"cp /repo/src/basilisp/_lang.abi3.so {wt}/src/basilisp/_lang.abi3.so")
         env = dict(os.environ, PYTHONPATH=f"{wt}/src", PATH="/venv/bin:" + os.environ.get("PATH", ""))
         demo = os.path.join(seed, "demo.py")
         if os.path.exists(demo):
